@@ -351,6 +351,63 @@ fn class_cases(cx: &mut Cx, path: &str, rng: &mut Rng, per_class: usize) {
     }
 }
 
+// ---- overflow, then an operator, then a NaN-absorbing operator ---------------------------------------------
+/// An intermediate overflows to +-inf inside the box (square of a huge x), an operator is applied to it, and the
+/// result goes through `not` / `and`, which turn a NaN into an ordinary number: the interval of the box must
+/// still contain the point value (or be the NaN interval).
+fn overflow_cases(cx: &mut Cx, rng: &mut Rng) {
+    use vharness::tapes::{GOp, BINARY, IMMREG, UNARY};
+    let mut mids: Vec<GOp> = vec![];
+    for u in UNARY {
+        mids.push(GOp::new(3, u, 2, 1, -1, 0));
+    }
+    for b in BINARY {
+        for imm in [2.0f32, -0.5] {
+            mids.push(GOp::new(4, b, 2, 1, -1, bits(imm)));
+            if IMMREG.contains(&b) {
+                mids.push(GOp::new(5, b, 2, 1, -1, bits(imm)));
+            }
+        }
+        mids.push(GOp::new(6, b, 2, 1, 1, 0));
+    }
+    for mid in &mids {
+        for grow in 0..3 {
+            for absorb in 0..3 {
+                // s1 = x^2 | -(x^2) | x * 1e30 ; s2 = mid(s1) ; s3 = not(s2) | and(s2, 1) | and(1?, ...) via or
+                let grow_ops: Vec<GOp> = match grow {
+                    0 => vec![GOp::new(3, "Square", 1, 0, -1, 0)],
+                    1 => vec![GOp::new(3, "Neg", 1, 4, -1, 0), GOp::new(3, "Square", 4, 0, -1, 0)],
+                    _ => vec![GOp::new(4, "Mul", 1, 0, -1, bits(1.0e30))],
+                };
+                // the tail: slot 3 is the output; slots 5, 6 are scratch
+                let tail: Vec<GOp> = match absorb {
+                    0 => vec![GOp::new(3, "Not", 3, 2, -1, 0)],
+                    1 => vec![GOp::new(4, "And", 3, 2, -1, bits(1.0))],
+                    // a comparison that the interval decides (bounded ranges such as sin, cos, mod lie below 3),
+                    // subtracted from itself: exactly 0 as an interval, NaN at the overflowing point; then `not`
+                    _ => vec![GOp::new(3, "Not", 3, 6, -1, 0), GOp::new(6, "Sub", 6, 5, 5, 0), GOp::new(5, "Compare", 5, 2, -1, bits(3.0))],
+                };
+                let mut ssa = vec![GOp::new(0, "Output", -1, 3, 0, 0), GOp::new(0, "Output", -1, 2, 1, 0)];
+                ssa.extend(tail);
+                ssa.push(mid.clone());
+                ssa.extend(grow_ops);
+                ssa.push(GOp::new(1, "Input", 0, 0, -1, 0));
+                let p = Prog { ssa, nvars: 1 };
+                let hi = if grow == 2 { 1.0e9f32 } else { 1.0e20 };
+                let bx = vec![Interval::new(hi / 10.0, hi)];
+                let mut pts = box_samples(rng, &bx, 6);
+                pts.push(vec![hi]);
+                pts.push(vec![hi / 10.0]);
+                let excluded = has_atan2(&p);
+                let (Ok(vmf), Ok(jf)) = (vm_fn::<255>(&p), jit_fn(&p)) else { continue };
+                let pf = |q: &[f32]| point_trace(&vmf, q).out;
+                e2e(cx, "vm-overflow", &vmf, &pf, 2, &bx, &pts, excluded, &p);
+                e2e(cx, "jit-overflow", &jf, &pf, 2, &bx, &pts, excluded, &p);
+            }
+        }
+    }
+}
+
 fn main() {
     let args: Vec<String> = std::env::args().collect();
     let quick = args[2] == "quick";
@@ -398,6 +455,7 @@ fn main() {
     if args.len() > 4 {
         class_cases(&mut cx, &args[4], &mut rng, if quick { 2 } else { 12 });
     }
+    overflow_cases(&mut cx, &mut rng);
     transformed::<VmFunction>(&mut cx, "vm", &mut rng, if quick { 300 } else { 4000 });
     transformed::<JitFunction>(&mut cx, "jit", &mut rng, if quick { 300 } else { 4000 });
     let n = cx.id;
